@@ -7,6 +7,7 @@ import QrlewModel.Model.DpEvent
 import QrlewModel.Model.Monotone
 import QrlewModel.Model.Injection
 import QrlewModel.Model.Filter
+import QrlewModel.Model.Clip
 /-!
 JSON-lines driver over the executable model.  One input line = one harness line
 (`{"stream":..,"case":..,..}`); one output line = `{"model": <canonical output>}`.
@@ -278,6 +279,35 @@ def runFilter (c : Json) : Option Json := do
   let out := filterT cap T p
   pure (Json.mkObj [("cols", Json.arr (out.map ivsToJson).toArray)])
 
+/-- clipping model on Float: rows (unit, group, value|null) -> per-group clipped sums; compared with the sums the real
+relation produced on SQLite (passed in `aux`) -/
+def runClip (c : Json) (aux : Json) : Option Json := do
+  let nU ← (c.getObjVal? "n_units").toOption >>= jInt?
+  let nG ← (c.getObjVal? "n_groups").toOption >>= jInt?
+  let cc ← (c.getObjVal? "c").toOption >>= jFloat?
+  let rowsJ ← (c.getObjVal? "rows").toOption >>= fun a => a.getArr?.toOption
+  let rows ← rowsJ.toList.mapM fun r => do
+    let u ← (r.getArrVal? 0).toOption >>= jInt?
+    let g ← (r.getArrVal? 1).toOption >>= jInt?
+    let x := ((r.getArrVal? 2).toOption >>= jFloat?)
+    pure (u, g, x)
+  -- per-unit vectors of per-group partial sums (NULL values are ignored by SUM)
+  let units : List (List Float) := (List.range nU.toNat).map fun u =>
+    (List.range nG.toNat).map fun g =>
+      (rows.filter fun r => r.1 == Int.ofNat u && r.2.1 == Int.ofNat g).foldl (fun acc r => acc + (r.2.2.getD 0.0)) 0.0
+  -- units without any row do not appear in the data: their vector is zero and contributes nothing
+  let tot := Clip.total floatOps (fun x => x == 0.0) nG.toNat cc units
+  let sumsJ ← (aux.getObjVal? "sums").toOption >>= fun a => a.getArr?.toOption
+  let ok := sumsJ.toList.all fun s =>
+    match (s.getArrVal? 0).toOption >>= jInt?, (s.getArrVal? 1).toOption >>= jFloat? with
+    | some g, some v => (closeTo v (tot.getD g.toNat 0.0)) || (v - tot.getD g.toNat 0.0).abs ≤ 1e-9
+    | some g, none => (tot.getD g.toNat 0.0).abs ≤ 1e-9      -- SUM over only NULLs is NULL
+    | _, _ => false
+  -- groups the relation did not output must have no rows
+  let present := sumsJ.toList.filterMap fun s => (s.getArrVal? 0).toOption >>= jInt?
+  let ok2 := (List.range nG.toNat).all fun g => present.contains (Int.ofNat g) || !(rows.any fun r => r.2.1 == Int.ofNat g)
+  pure (Json.mkObj [("clip_ok", Json.bool (ok && ok2))])
+
 def handle (line : String) : Json :=
   match Json.parse line with
   | .error e => Json.mkObj [("model", Json.null), ("error", Json.str s!"parse: {e}")]
@@ -290,6 +320,7 @@ def handle (line : String) : Json :=
       | "fnimg" => runFnImg c
       | "ofint" => runOfInt c
       | "filter" => runFilter c
+      | "clip" => runClip c ((j.getObjVal? "aux").toOption.getD Json.null)
       | "dpevent" => runDpEvent c
       | "dpquery" => runDpQuery ((j.getObjVal? "aux").toOption.getD Json.null)
       | "rules" => runRules ((j.getObjVal? "aux").toOption.getD Json.null)
